@@ -119,4 +119,22 @@ Continuations(s) ==
     [] OTHER -> {}
 \* safety under any continuation: nothing a fault can do makes the verdicts better than fault-free
 FaultSafe(c, o, s) == Active(c, o, s) => Continuations(s) # {}
+
+\* C11, first clause: "the read ends with an error or with that step recorded as failed".  The observable outcome of a
+\* read with ONE faulted exchange, relative to the fault-free read of the same chip, is
+\*   err      ReadDocument returned an error
+\*   steps    "same" | "changed": the recorded step outcomes (pace, cam, bac, aa, ca, completeness, pa) equal the fault-free ones
+\*   files    "same" | "fewer"  : the set of files obtained, relative to the fault-free read
+\* What each continuation may produce:
+OutcomeOf(cont) == CASE cont = "abort"    -> [err |-> TRUE,  steps |-> "any",     files |-> "any"]
+                     [] cont = "record"   -> [err |-> FALSE, steps |-> "changed", files |-> "any"]
+                     [] cont = "tolerate" -> [err |-> FALSE, steps |-> "same",    files |-> "same"]
+                     [] cont = "retry"    -> [err |-> FALSE, steps |-> "same",    files |-> "same"]
+\* the clause as a predicate on an observed outcome: no error and no changed step outcome => nothing was lost
+NoSilentLoss(obs) == (~obs.err /\ obs.steps = "same") => obs.files = "same"
+\* every continuation the pipeline has satisfies it
+ContinuationsSound == \A s \in {"selectMF", "cardAccess", "pace", "selectApp", "bac", "dir", "sod", "com", "dgs", "chipauth"} :
+                        \A k \in Continuations(s) : LET oc == OutcomeOf(k) IN
+                          \A st \in (IF oc.steps = "any" THEN {"same", "changed"} ELSE {oc.steps}), f \in (IF oc.files = "any" THEN {"same", "fewer"} ELSE {oc.files}) :
+                             NoSilentLoss([err |-> oc.err, steps |-> st, files |-> f])
 =============================================================================
